@@ -46,7 +46,7 @@ T = {
     "C15": ("explore", "model_checking", BFS + " restricted to the allocator_traits family with a net-bytes ledger per object identity as moved; all thread schedules (every atomic operation a scheduling point) for the process-wide balance of the stateless allocators",
             "At every destruction reachable in the bounded configurations the leak handler must be called exactly once with the exact net (or not at all when balanced).",
             "2/C15", TRUST),
-    "C19": ("enum", "exploration", "exhaustive input enumeration (complete small domain x all alignments, boundary class around every power of two, all bucket selections) against 128-bit definitional references; explicit-state BFS over two collections of different max_node_size with moves for bucket selection after a move",
+    "C19": ("enum", "model_checking", "exhaustive input enumeration (complete small domain x all alignments, boundary class around every power of two, all bucket selections) against 128-bit definitional references; explicit-state BFS over two collections of different max_node_size with moves for bucket selection after a move",
             "Exhaustive on the two input classes the property names; the full 2^64 x 64 product is not enumerable.",
             "2/C19", "unsigned __int128 reference arithmetic; g++ builtins"),
     "C20": ("faults", "fault_enumeration", "exhaustive enumeration of (helper, length 0..16, failing construction index, failing operation kind) on instrumented and real allocators",
@@ -73,7 +73,7 @@ T.update({
     "C11": ("compose", "exploration", "exhaustive enumeration of joint layouts x additional sizes x element counts x operation sequences over two joint_ptr slots on two instrumented upstream allocators; every release path of joint_ptr compiled with -O2 against a non-escaping block ledger",
             "Every layout/size/count combination of the grid and every operation sequence up to the depth; the instrumented upstream with guard bytes decides containment, alignment, single release.",
             "2/C11", "instrumented upstream is trusted"),
-    "C17": ("enum", "exploration", "exhaustive input enumeration: every node size x alignment x byte offset of both fences x byte value on the four low-level allocators with a counting overflow handler; bounded exhaustive walk for fill patterns of arena allocators",
+    "C17": ("enum", "model_checking", "explicit-state BFS over pools/collections through allocator_traits with fill/content monitors; exhaustive input enumeration: every node size x alignment x byte offset of both fences x byte value on the four low-level allocators with a counting overflow handler; bounded exhaustive walk for fill patterns of arena allocators",
             "Every single-byte fence corruption of the stated grid must be reported exactly once with the exact address; in-bounds writes never; fill patterns checked on every returned and released range.",
             "2/C17", "the allocator's own fence layout is read from lowlevel_allocator"),
 })
